@@ -7,6 +7,7 @@ const lmdbPkg = "github.com/PowerDNS/lmdb-go/lmdb"
 var redirectTable = map[string]string{
 	zzPath + ".NewEnv":                  zzPath + ".MNewEnv",
 	zzPath + ".TxnCounts":               zzPath + ".MTxnCounts",
+	zzPath + ".SetFault":                zzPath + ".MSetFault",
 	repoMod + "/snapshot.DumpData":      repoMod + "/snapshot.VDumpData",
 	repoMod + "/snapshot.LoadData":      repoMod + "/snapshot.VLoadData",
 	"(*" + lmdbPkg + ".Env).Info":       zzPath + ".MEnvInfo",
